@@ -427,7 +427,7 @@ func checkMain(args []string) int {
 	t0 := time.Now()
 	findings := loadFindings()
 	obligs := spec.Obligs(tier)
-	deadline := 110 * time.Second
+	deadline := 240 * time.Second
 	if tier == "thorough" {
 		deadline = 25 * time.Minute
 	}
